@@ -23,6 +23,7 @@ package tabix
 //@ trusted func ext:strings.Split
 //@   ensures len(result) >= 1
 
+//@ table tbiMagic
 //@ func readTabixHeader
 //@   mode bv
 //@   props C11
